@@ -13,28 +13,28 @@ CLAIMED = {
             "DESIGN.md §4 C04"),
     "C08": ("exploration",
             "crash oracle: in-process panic capture for synchronous entry points, child-process death (inputs logged to disk before delivery) for layers running in library goroutines, plus a liveness probe after each batch",
-            "Hundreds of thousands of hostile inputs per run: random, structure-aware field mutations of genuine packets, contradiction sequences against reassembly state and byte-level mutations, fed to address/key/peer-id parsers, the five demultiplexers, P2PKE sessions in every handshake state and role, channels with 0-3 occupied slots, DHT handlers and cache calls, and through the harness's wire transport to fragswarm, mbapp (tell/ask/reply paths), multiplexers and p2pkeswarm; each layer must still pass a valid message afterwards.",
+            "Hundreds of thousands of hostile inputs per run: random, structure-aware field mutations of genuine packets, contradiction sequences against reassembly state and byte-level mutations, fed to address/key/peer-id parsers, the five demultiplexers, P2PKE sessions in every handshake state and role, channels with 0-3 occupied slots, DHT handlers (also from 8 goroutines at once while peers come and go) and cache calls, and through the harness's wire transport to fragswarm, mbapp (tell/ask/reply paths), multiplexers and p2pkeswarm; each layer must still pass a valid message afterwards.",
             "quicswarm faces a raw hostile quic-go client and a raw hostile quic-go server, sshswarm a raw hostile x/crypto/ssh client; runtime-fatal errors (out of memory, ...) count as crashes; constructor/configuration panics are not judged; in the race pass the single-goroutine phases get an eighth of the inputs.",
             "DESIGN.md §4 C08"),
     "C14": ("exploration",
             "Go race detector (-race, reports parsed, de-duplicated and classified by access site) over high-contention workloads + buffer-ownership canary in every callback",
-            "The -race build runs, per stack, the ledger tell workload with replies from inside callbacks while other goroutines hammer LocalAddrs/MTU/ParseAddr/PublicKey/LookupPublicKey and Close races everything, the ask workload, and DHTNode/Cache calls from 8 goroutines; every callback checksums its buffer at entry and exit and scribbles it, and the ledger shows whether old contents ever surface.",
+            "The -race build runs, per stack, the ledger tell workload with replies from inside callbacks while other goroutines hammer LocalAddrs/MTU/ParseAddr/PublicKey/LookupPublicKey and Close races everything, the ask workload, and DHTNode/Cache calls and iterations from 8 goroutines with keys and values living in buffers the caller rewrites after every call; every callback checksums its buffer at entry and exit and scribbles it, and the ledger shows whether old contents ever surface.",
             "Only executed interleavings are seen; a report is the library's when an access site is in the library, or when a harness access to memory the API says is the harness's races with an access made under library frames (even if the copy happens in a third-party package); reports with no library involvement are recorded as external; a report whose sites are both in the harness fails the check as broken.",
             "DESIGN.md §4 C14"),
     "C12": ("exploration",
             "lifecycle monitor: parked-goroutine detector on Close / blocked calls / post-close calls, causal epoch check for deliveries after Close, goroutine-set difference for leaks",
-            "On every stack 0-16 goroutines are blocked in Receive/ServeAsk with background contexts while peers tell and ask (optionally replying from inside callbacks); Close at a seeded moment must return, unblock every blocked call with an error, make all later calls fail, never deliver a message created after it returned, tolerate a second Close, and after all swarms are closed no goroutine started by them may remain.",
-            "Blocked = parked in library frames in two snapshots 1 s apart after a 5-6 s watchdog; messages in flight at Close are not judged; composites are torn down by their documented owner.",
+            "On every stack 0-16 goroutines are blocked in Receive/ServeAsk with background contexts while peers tell and ask (optionally replying from inside callbacks); Close at a seeded moment must return, unblock every blocked call with an error, make all later calls fail, never deliver a message created after it returned, tolerate a second Close, and after all swarms are closed no goroutine started by them may remain; an sshswarm node is also closed while raw ssh clients connect and send 40 tells each.",
+            "Blocked = parked in library frames in two snapshots 1 s apart after a 5-6 s watchdog; messages in flight at Close are not judged (callbacks that began after Close returned are counted); composites are torn down by their documented owner.",
             "DESIGN.md §4 C12"),
     "C10": ("fault_enumeration",
             "harness-as-transport: enumerated and random interleaving/loss/duplication schedules of labelled real fragments fed to fresh real reassembly instances; payload-identity oracle",
-            "Fragments captured from real fragswarm/mbapp senders are fed to a fresh destination instance per schedule: all interleavings x drop-one x duplicate-one for pairs of small messages, random shuffles with loss/duplication for all messages, at inner MTUs 40/64/100/1000; every delivered payload must be one sent payload of the sender Src names, messages with a never-fed fragment must not appear; also multi-part ask replies under perturbation and reply/tell group-id coincidences.",
+            "Fragments captured from real fragswarm/mbapp senders are fed to a fresh destination instance per schedule: all interleavings x drop-one x duplicate-one for pairs of small messages, random shuffles with loss/duplication for all messages, at inner MTUs 40/64/100/1000; every delivered payload must be one sent payload of the sender Src names, messages with a never-fed fragment must not appear; the largest message each layer says it carries (MTU()-1, MTU(), MTU()+1 bytes over parts of 1, 2 or 4 bytes, so the part count reaches the limit of its header field); also multi-part ask replies under perturbation and reply/tell group-id coincidences.",
             "Missing deliveries are not judged; sender restarts re-using message ids are outside the quantifier.",
             "DESIGN.md §4 C10"),
     "C11": ("exploration",
             "request/response ledger: responses derived from (request id, invocation number, secret) compared at the asker; parked-goroutine detector for asks whose context ended before any handler began",
-            "On every ask-capable stack 2-16 concurrent askers ask two serving nodes and one that never serves, with derived/negative/slow/oversize handlers, four context plans and a destination closed mid-run; success must carry exactly the bytes of one non-negative invocation for that very request; handlers must see the request bytes and the asker's address.",
-            "Asks whose handler had begun when the context ended are not judged for promptness (hub commit point); ssh context handling is an open known finding; QUIC-over-UDP and deeper nestings in thorough only.",
+            "On every ask-capable stack 2-16 concurrent askers ask two serving nodes and one that never serves, with derived/negative/slow/oversize handlers, four context plans and a destination closed mid-run; success must carry exactly the bytes of one non-negative invocation for that very request; handlers must see the request bytes and the asker's address; handlers that only wait for the context they were given are asked with deadlines of a few milliseconds.",
+            "Asks whose handler had begun when the context ended are not judged for promptness (hub commit point) unless the handler is waiting only for its own context and that context has not ended; ssh context handling is an open known finding; QUIC-over-UDP and deeper nestings in thorough only.",
             "DESIGN.md §4 C11"),
     "C09": ("exploration",
             "boundary-length workload per stack configuration with a ledger at the receiver and an MTU-error recorder under the layer under test",
@@ -43,8 +43,8 @@ CLAIMED = {
             "DESIGN.md §4 C09"),
     "C01": ("exploration",
             "ledger monitor (sha256 lookup of unique self-describing payloads) inside receiver callbacks on every swarm stack, with buffer canaries and injected delays; thorough adds a -race pass",
-            "All-pairs concurrent traffic on every stack and nesting; each delivered payload must be one told to this receiver, Src must name the teller and Dst the receiver; callback buffers are checksummed and scribbled, sender buffers compared and overwritten after Tell, replies go to the observed Src (also from inside the callback), some Tells carry deadlines that expire mid-write.",
-            "Losses and duplicates are counted, not judged; in the quick tier quicswarm runs only in its skewed-MTU configuration and sshswarm once, everything else of QUIC/SSH in the thorough tier; transport queues of 2-16 buffers, MTU-skewed peers and wrong-identity tells on identity-bearing stacks are part of both tiers; ssh source ports are ephemeral so identity+IP decide there.",
+            "All-pairs concurrent traffic on every stack and nesting; each delivered payload must be one told to this receiver, Src must name the teller and Dst the receiver; callback buffers are checksummed and scribbled, sender buffers compared and overwritten after Tell, replies go to the observed Src (also from inside the callback), some Tells carry deadlines that expire mid-write; a third of the send vectors are slices of one buffer with gaps and spare capacity, compared as a whole after Tell.",
+            "Losses and duplicates are counted, not judged; in the quick tier quicswarm runs only in its skewed-MTU configuration and sshswarm once, everything else of QUIC/SSH in the thorough tier; transport queues of 2-16 buffers, MTU-skewed peers, a link that wipes what it drops, a node closed while its callbacks run and its peers keep telling, the largest message of the reassembling layers and wrong-identity tells on identity-bearing stacks are part of both tiers; the slots of the caller's vector are not judged (quicswarm consumes them on the unchanged tree); ssh source ports are ephemeral so identity+IP decide there.",
             "DESIGN.md §4 C01"),
     "C05": ("exploration",
             "state/ledger oracle on a victim Channel against honest peers and a raw attacker, plus encryption-site hook events",
@@ -59,7 +59,7 @@ CLAIMED = {
     "C13": ("exploration",
             "offline trace-specification checker over boundary-recorded histories (rendezvous spec, conservation) + porcupine bag model for the queue + parked-goroutine detector for cancellation",
             "TellHub, AskHub and Queue are driven directly by 1-8 producers/receivers with per-call contexts, closes and seeded delays at hook points; all events are stamped from one counter at the API boundary and checked offline: exactly-one callback per message, success only after the callback finished, error only if no callback ever saw it, overlapping intervals, conservation, own-context errors; cancelled calls (also udpswarm/vswarm Receive) must not remain parked.",
-            "Promptness is decided by two goroutine snapshots 1 s apart after a 3-5 s watchdog (parked in library frames = violation, otherwise inconclusive), never by wall-clock alone.",
+            "Promptness is decided by two goroutine snapshots 1 s apart after a 3-5 s watchdog (parked in library frames = violation, otherwise inconclusive), never by wall-clock alone; Queue.Purge takes no context, a producer parked in it is released and the case is inconclusive.",
             "DESIGN.md §4 C13"),
     "C02": ("exploration",
             "plaintext/counter ledger monitors over adversarial schedules (sessions driven directly; channels with millisecond timers) + encryption-site hook events",
